@@ -224,6 +224,10 @@ func init() {
 		if !okn {
 			return nil, false
 		}
+		// reading from a nil reader panics
+		if nt := c.St.Simplify(NilTerm(c.Args[0])); !(nt.IsConst() && nt.C.Sign() == 0) {
+			ex.PanicIf(c, nt, "io.ReadFull on a nil reader")
+		}
 		ex.readCtr++
 		out := sym.SymT(sym.Bytes, fmt.Sprintf("entropy%d", ex.readCtr), ex.Cfg.ReaderTaint)
 		sym.SetBytesLen(out, int(n))
@@ -369,3 +373,24 @@ func asBool(t *sym.Term) *sym.Term {
 
 // AsBool is the exported form of asBool.
 func AsBool(t *sym.Term) *sym.Term { return asBool(t) }
+
+// NilTerm is the condition under which a (possibly merged) pointer / interface value is nil.
+func NilTerm(v Val) *sym.Term {
+	switch x := v.(type) {
+	case Nil:
+		return sym.ConstBool(true)
+	case *Choice:
+		return sym.Ite(x.Cond, NilTerm(x.A), NilTerm(x.B))
+	case *Iface:
+		if x.Opaque != nil {
+			if x.NonNil {
+				return sym.ConstBool(false)
+			}
+			return sym.App(sym.Bool, "isnil", x.Opaque)
+		}
+		return sym.ConstBool(x.Dyn == nil)
+	case *SliceVal:
+		return sym.ConstBool(x.Base == nil)
+	}
+	return sym.ConstBool(false)
+}
